@@ -442,6 +442,14 @@ where
         )?;
         let [l0, l_last, l_active_row] = compute_lagrange_polys(&vk, &vk.cs);
         let fixed_values = read_polynomial_vec(reader, format)?;
+        if fixed_values.len() != vk.fixed_commitments.len()
+            || fixed_values.iter().any(|poly| poly.len() != vk.domain.n as usize)
+        {
+            return Err(io::Error::new(
+                io::ErrorKind::InvalidData,
+                "unexpected number or length of fixed polynomials",
+            ));
+        }
         let fixed_polys: Vec<_> = fixed_values
             .iter()
             .map(|poly| vk.domain.lagrange_to_coeff(poly.clone()))
